@@ -14,17 +14,17 @@ Open Scope Z_scope.
 (* Current adapter: in every reachable state in which Stopped(p) is published and the session is not in the middle of
    a step command, the machine thread cannot execute an instruction and p is the CPU's program counter. *)
 Theorem C19_inv : forall (cpu : Type) (pc : cpu -> Z) (step : cpu -> cpu) (fin : cpu -> bool)
-    (step_over step_out : cpu -> cpu) (c0 : cpu) (tr : list action) (s : st cpu),
-  run cpu pc step fin step_over step_out adapter_protocol tr (init c0) = Some s ->
+    (step_over step_out : cpu -> cpu) (reset_lcp : bool) (c0 : cpu) (tr : list action) (s : st cpu),
+  run cpu pc step fin step_over step_out reset_lcp adapter_protocol tr (init c0) = Some s ->
   Inv cpu pc s.
 Proof. exact inv_stateheld. Qed.
 Print Assumptions C19_inv.
 
 (* what a stackTrace response carries is the CPU's program counter, and the machine is halted when it is sent *)
 Theorem C19_stacktrace_is_cpu_pc : forall (cpu : Type) (pc : cpu -> Z) (step : cpu -> cpu) (fin : cpu -> bool)
-    (step_over step_out : cpu -> cpu) (c0 : cpu) (tr : list action) (s s' : st cpu) (p : Z),
-  run cpu pc step fin step_over step_out adapter_protocol tr (init c0) = Some s ->
-  step_act cpu pc step fin step_over step_out adapter_protocol S_stack s = Some (s', [OStack (Stopped p)]) ->
+    (step_over step_out : cpu -> cpu) (reset_lcp : bool) (c0 : cpu) (tr : list action) (s s' : st cpu) (p : Z),
+  run cpu pc step fin step_over step_out reset_lcp adapter_protocol tr (init c0) = Some s ->
+  step_act cpu pc step fin step_over step_out reset_lcp adapter_protocol S_stack s = Some (s', [OStack (Stopped p)]) ->
   p = pc (cp s) /\ machine_cannot_execute cpu s.
 Proof. exact stacktrace_is_cpu_pc. Qed.
 Print Assumptions C19_stacktrace_is_cpu_pc.
@@ -34,11 +34,11 @@ Print Assumptions C19_stacktrace_is_cpu_pc.
    evaluate / setBreakpoints requests, event delivery, in any interleaving) leaves the CPU and the published stop
    address unchanged, and the address stays the CPU's program counter. *)
 Theorem C19_halted_stable : forall (cpu : Type) (pc : cpu -> Z) (step : cpu -> cpu) (fin : cpu -> bool)
-    (step_over step_out : cpu -> cpu) (c0 : cpu) (tr0 tr : list action) (s s' : st cpu) (p : Z),
-  run cpu pc step fin step_over step_out adapter_protocol tr0 (init c0) = Some s ->
+    (step_over step_out : cpu -> cpu) (reset_lcp : bool) (c0 : cpu) (tr0 tr : list action) (s s' : st cpu) (p : Z),
+  run cpu pc step fin step_over step_out reset_lcp adapter_protocol tr0 (init c0) = Some s ->
   rs s = Stopped p -> observing cpu s = true ->
   forallb (fun a => negb (run_control a)) tr = true ->
-  run cpu pc step fin step_over step_out adapter_protocol tr s = Some s' ->
+  run cpu pc step fin step_over step_out reset_lcp adapter_protocol tr s = Some s' ->
   cp s' = cp s /\ rs s' = Stopped p /\ p = pc (cp s').
 Proof. exact halted_stable_reachable. Qed.
 Print Assumptions C19_halted_stable.
@@ -47,17 +47,17 @@ Print Assumptions C19_halted_stable.
      configurationDone . M_read_state(Running) . M_check_bp . pause: S_pause_read_pc . S_pause_publish . M_execute
    ends with the session idle, Stopped(pc c0) published and the CPU one instruction further. *)
 Theorem C19_pause_race_refuted : forall (cpu : Type) (pc : cpu -> Z) (step : cpu -> cpu) (fin : cpu -> bool)
-    (step_over step_out : cpu -> cpu) (c0 : cpu),
+    (step_over step_out : cpu -> cpu) (reset_lcp : bool) (c0 : cpu),
   fin c0 = false -> pc (step c0) <> pc c0 ->
-  exists s, run cpu pc step fin step_over step_out Legacy race_schedule (init c0) = Some s /\
+  exists s, run cpu pc step fin step_over step_out reset_lcp Legacy race_schedule (init c0) = Some s /\
             sl s = SIdle /\ rs s = Stopped (pc c0) /\ cp s = step c0 /\ ~ Inv cpu pc s.
 Proof. exact pause_race_refuted. Qed.
 Print Assumptions C19_pause_race_refuted.
 
 (* ... and before that last action the client has its `stopped` while the machine thread is still going to execute *)
 Theorem C19_pause_race_machine_still_executes : forall (cpu : Type) (pc : cpu -> Z) (step : cpu -> cpu)
-    (fin : cpu -> bool) (step_over step_out : cpu -> cpu) (c0 : cpu),
-  exists s, run cpu pc step fin step_over step_out Legacy (removelast race_schedule) (init c0) = Some s /\
+    (fin : cpu -> bool) (step_over step_out : cpu -> cpu) (reset_lcp : bool) (c0 : cpu),
+  exists s, run cpu pc step fin step_over step_out reset_lcp Legacy (removelast race_schedule) (init c0) = Some s /\
             sl s = SIdle /\ rs s = Stopped (pc c0) /\ ml s = MChecked /\ ~ machine_cannot_execute cpu s.
 Proof. exact pause_race_machine_still_executes. Qed.
 Print Assumptions C19_pause_race_machine_still_executes.
@@ -66,34 +66,43 @@ Print Assumptions C19_pause_race_machine_still_executes.
    happens before the next resume/start, whatever else is scheduled (acceptance bound of the trace check for the
    Legacy protocol: a second change of the registers after `stopped` is not a Legacy behaviour either). *)
 Theorem C19_pause_overrun_le_1 : forall (cpu : Type) (pc : cpu -> Z) (step : cpu -> cpu) (fin : cpu -> bool)
-    (step_over step_out : cpu -> cpu) (tr : list action) (s s' : st cpu),
+    (step_over step_out : cpu -> cpu) (reset_lcp : bool) (tr : list action) (s s' : st cpu),
   rs s <> Running -> forallb (fun a => negb (is_resume a)) tr = true ->
-  run cpu pc step fin step_over step_out Legacy tr s = Some s' ->
+  run cpu pc step fin step_over step_out reset_lcp Legacy tr s = Some s' ->
   (count_exec tr <= 1)%nat.
 Proof. exact pause_overrun_le_1. Qed.
 Print Assumptions C19_pause_overrun_le_1.
 
 (* Breakpoints, current adapter.  `bp_ok` is a monitor over schedules: it fails at an M_execute of an instruction whose
    address is covered by a breakpoint unless, since the CPU last changed, Stopped(that address) was published (the client
-   was told "stopped here" and resumed).  For every program without a one-instruction loop, every breakpoint history and
-   every interleaving in which the client steps only while stopped and replaces breakpoints only while not running,
-   no instruction at a breakpoint address executes without a stop there first. *)
+   was told "stopped here" and resumed).  For every program, every breakpoint history and every interleaving in which the
+   client steps only while stopped and replaces breakpoints only while not running, no instruction at a breakpoint
+   address executes without a stop there first.  (`adapter_reset_lcp`: the machine thread clears last_checked_pc after
+   executing, as translate/t_dap.py finds in the source.) *)
 Theorem C19_bp_no_overrun : forall (cpu : Type) (pc : cpu -> Z) (step : cpu -> cpu) (fin : cpu -> bool)
     (step_over step_out : cpu -> cpu) (c0 : cpu) (tr : list action),
-  no_self_loop cpu pc step fin ->
-  disciplined cpu pc step fin step_over step_out adapter_protocol tr (init c0) = true ->
-  bp_ok cpu pc step fin step_over step_out adapter_protocol tr (init c0) false = true.
-Proof. exact bp_no_overrun. Qed.
+  disciplined cpu pc step fin step_over step_out adapter_reset_lcp adapter_protocol tr (init c0) = true ->
+  bp_ok cpu pc step fin step_over step_out adapter_reset_lcp adapter_protocol tr (init c0) false = true.
+Proof. exact bp_no_overrun_adapter. Qed.
 Print Assumptions C19_bp_no_overrun.
 
-(* The guard is needed (class Known_breakpoint_self_loop): `last_checked_pc` skips the check when the same pc is reached
-   twice in a row, so a breakpoint on `hang: jmp hang` stops once; after `continue` the instruction executes again and
-   again without another stop. *)
+(* the general form: without the reset the theorem needs a program that never executes a one-instruction loop *)
+Theorem C19_bp_no_overrun_guarded : forall (cpu : Type) (pc : cpu -> Z) (step : cpu -> cpu) (fin : cpu -> bool)
+    (step_over step_out : cpu -> cpu) (reset_lcp : bool) (c0 : cpu) (tr : list action),
+  (reset_lcp = false -> no_self_loop cpu pc step fin) ->
+  disciplined cpu pc step fin step_over step_out reset_lcp StateHeld tr (init c0) = true ->
+  bp_ok cpu pc step fin step_over step_out reset_lcp StateHeld tr (init c0) false = true.
+Proof. exact bp_no_overrun. Qed.
+Print Assumptions C19_bp_no_overrun_guarded.
+
+(* ... and the guard was needed for the adapter as pinned (reset_lcp = false): `last_checked_pc` skipped the check whenever
+   the same pc was reached twice in a row, so a breakpoint on `hang: jmp hang` stopped once; after `continue` the
+   instruction executed again and again without another stop. *)
 Theorem C19_bp_self_loop_refuted :
   exists (cpu : Type) (pc : cpu -> Z) (step : cpu -> cpu) (fin : cpu -> bool) (so sout : cpu -> cpu) (c0 : cpu),
-    disciplined cpu pc step fin so sout StateHeld self_loop_schedule (init c0) = true /\
-    run cpu pc step fin so sout StateHeld self_loop_schedule (init c0) <> None /\
-    bp_ok cpu pc step fin so sout StateHeld self_loop_schedule (init c0) false = false.
+    disciplined cpu pc step fin so sout false StateHeld self_loop_schedule (init c0) = true /\
+    run cpu pc step fin so sout false StateHeld self_loop_schedule (init c0) <> None /\
+    bp_ok cpu pc step fin so sout false StateHeld self_loop_schedule (init c0) false = false.
 Proof. exact bp_self_loop_refuted. Qed.
 Print Assumptions C19_bp_self_loop_refuted.
 
@@ -179,7 +188,7 @@ Print Assumptions C19_event_table.
 Example C19_example_stateheld :
   let tr := [S_req RConfigDone; S_start; M_read_state; M_check_bp; M_execute; M_read_state; M_check_bp; M_execute;
              S_req RPause; S_pause_read_pc; S_event; S_req RStackTrace; S_stack] in
-  match run_obs Z (fun c => c) Z.succ (fun _ => false) Z.succ Z.succ StateHeld tr (init 10) with
+  match run_obs Z (fun c => c) Z.succ (fun _ => false) Z.succ Z.succ true StateHeld tr (init 10) with
   | Some (s, o) => rs s = Stopped 12 /\ cp s = 12 /\ o = [OResp RConfigDone; OResp RPause; OEvent EvStoppedBreakpoint; OStack (Stopped 12)]
   | None => False
   end.
@@ -188,7 +197,7 @@ Proof. vm_compute. repeat split; reflexivity. Qed.
 (* the racing pause is not a schedule of the repaired protocol: pause cannot publish while the machine thread is
    between its state check and its execute *)
 Example C19_example_race_disabled :
-  run Z (fun c => c) Z.succ (fun _ => false) Z.succ Z.succ StateHeld
+  run Z (fun c => c) Z.succ (fun _ => false) Z.succ Z.succ true StateHeld
       [S_req RConfigDone; S_start; M_read_state; M_check_bp; S_req RPause; S_pause_read_pc] (init 10) = None.
 Proof. vm_compute. reflexivity. Qed.
 
@@ -199,9 +208,21 @@ Example C19_example_bp_every_iteration :
              M_read_state; M_check_bp; M_execute; M_read_state; M_check_bp; S_event; S_req RContinue; S_resume;
              M_read_state; M_check_bp; M_execute; M_read_state; M_check_bp; M_execute; M_read_state; M_check_bp; M_execute;
              M_read_state; M_check_bp] in
-  match run_obs Z pcf Z.succ (fun _ => false) Z.succ Z.succ StateHeld tr (init 0) with
+  match run_obs Z pcf Z.succ (fun _ => false) Z.succ Z.succ true StateHeld tr (init 0) with
   | Some (s, o) => rs s = Stopped 1 /\ cp s = 4 /\ o = [OResp (RSetBps [(1, 2)]); OResp RConfigDone; OEvent EvStoppedBreakpoint; OResp RContinue]
   | None => False
   end /\
-  bp_ok Z pcf Z.succ (fun _ => false) Z.succ Z.succ StateHeld tr (init 0) false = true.
+  bp_ok Z pcf Z.succ (fun _ => false) Z.succ Z.succ true StateHeld tr (init 0) false = true.
+Proof. vm_compute. repeat split; reflexivity. Qed.
+
+(* the repaired adapter on the one-instruction loop: the second arrival at the breakpoint stops again *)
+Example C19_example_self_loop_repaired :
+  let tr := [S_req (RSetBps [(7, 8)]); S_set_bps; S_req RConfigDone; S_start;
+             M_read_state; M_check_bp; S_event; S_req RContinue; S_resume;
+             M_read_state; M_check_bp; M_execute; M_read_state; M_check_bp] in
+  match run Z (fun _ => 7) Z.succ (fun _ => false) Z.succ Z.succ true StateHeld tr (init 0) with
+  | Some s => rs s = Stopped 7 /\ cp s = 1
+  | None => False
+  end /\
+  bp_ok Z (fun _ => 7) Z.succ (fun _ => false) Z.succ Z.succ true StateHeld tr (init 0) false = true.
 Proof. vm_compute. repeat split; reflexivity. Qed.
